@@ -31,6 +31,7 @@ var replayFamilies = map[string]replayFamily{
 	"leak":   {".", "leak_test.go", "TestStickvcReplayLeak"},
 	"pos":    {"parse", "pos_test.go", "TestStickvcReplayPos"},
 	"render": {"twig", "render_test.go", "TestStickvcReplayRender"},
+	"race":   {"twig", "race_test.go", "TestStickvcReplayRace"},
 }
 
 type ReplayFile struct {
@@ -154,6 +155,9 @@ func writeReplay(e *Engine, pc *PropConfig, o *Obligation, header *Universe, dir
 			}
 		}
 		rf.TestOutput = truncate(firstFailLines(out, 12), 3000)
+		if failed && !strings.Contains(out, "REPLAY-FAIL") && strings.Contains(out, "WARNING: DATA RACE") {
+			out = "REPLAY-FAIL class=race/detector the race detector reports a data race inside the library during concurrent Execute/Parse on one environment\n" + out
+		}
 		if failed && strings.Contains(out, "REPLAY-FAIL") {
 			confirmed = true
 			rf.Outcome = "confirmed"
@@ -200,7 +204,12 @@ func runHarness(fam replayFamily, env map[string]string) (string, bool) {
 	ovPath := filepath.Join(wd, fmt.Sprintf("ov_%d.json", time.Now().UnixNano()))
 	os.WriteFile(ovPath, ob, 0o644)
 	defer os.Remove(ovPath)
-	cmd := exec.Command("go", "test", "-overlay", ovPath, "-vet=off", "-count=1", "-timeout", "120s", "-run", "^"+fam.test+"$", "./"+fam.pkgDir)
+	args := []string{"test", "-overlay", ovPath, "-vet=off", "-count=1", "-timeout", "120s", "-run", "^" + fam.test + "$", "./" + fam.pkgDir}
+	if fam.test == "TestStickvcReplayRace" {
+		// with the race detector (the result comparison in the harness works without it, should it be unavailable)
+		args = append([]string{"test", "-race"}, args[1:]...)
+	}
+	cmd := exec.Command("go", args...)
 	cmd.Dir = repoDir
 	cmd.Env = append(os.Environ(), "GOFLAGS=-mod=mod", "GOPROXY=off", "GOSUMDB=off", "GOTOOLCHAIN=local")
 	for k, v := range env {
